@@ -653,6 +653,75 @@ func takesLock(fns ...*ast.FuncDecl) bool {
 	return false
 }
 
+// reapsBeforeEscalation: inside fn (ControllableTask.Launch), is any `<…>.Wait()` called — directly or in a
+// goroutine the function starts — textually before a call of doTermIntKill? On the launch-failure paths the command
+// is then reaped before or while its process group is being escalated: a group leader that dies of the first signal
+// disappears, and doTermIntKill, which asks pidExists(-pgid) = "does the LEADER exist" before SIGINT and before
+// SIGKILL, stops with members of the group alive. As the code stands the only Wait() of Launch is the reaper of a
+// task that became ready, after every doTermIntKill of the function. (-1: no doTermIntKill call in fn at all.)
+func reapsBeforeEscalation(fn *ast.FuncDecl) int {
+	var waits, escs []token.Pos
+	ast.Inspect(fn, func(x ast.Node) bool {
+		c, ok := x.(*ast.CallExpr)
+		if !ok {
+			return true
+		}
+		if sel, ok := c.Fun.(*ast.SelectorExpr); ok {
+			switch sel.Sel.Name {
+			case "Wait":
+				waits = append(waits, c.Pos())
+			case "doTermIntKill":
+				escs = append(escs, c.Pos())
+			}
+		}
+		return true
+	})
+	if len(escs) == 0 {
+		return -1
+	}
+	last := escs[len(escs)-1]
+	for _, e := range escs {
+		if e > last {
+			last = e
+		}
+	}
+	for _, w := range waits {
+		if w < last {
+			return 1
+		}
+	}
+	return 0
+}
+
+// pidExistsLooksAtLeader: does pidExists turn a negative pid (a process group) into the pid of the group's leader
+// (`pid *= -1` / `pid = -pid` under `pid < 0`) and ask for that one process only (os.FindProcess + Signal)?
+func pidExistsLooksAtLeader(fn *ast.FuncDecl) bool {
+	negated, finds := false, false
+	ast.Inspect(fn, func(x ast.Node) bool {
+		switch v := x.(type) {
+		case *ast.AssignStmt:
+			if len(v.Lhs) == 1 && len(v.Rhs) == 1 {
+				if id, ok := v.Lhs[0].(*ast.Ident); ok && id.Name == "pid" {
+					if v.Tok == token.MUL_ASSIGN {
+						if u, ok := v.Rhs[0].(*ast.UnaryExpr); ok && u.Op == token.SUB {
+							negated = true
+						}
+					}
+					if u, ok := v.Rhs[0].(*ast.UnaryExpr); ok && v.Tok == token.ASSIGN && u.Op == token.SUB {
+						negated = true
+					}
+				}
+			}
+		case *ast.CallExpr:
+			if sel, ok := v.Fun.(*ast.SelectorExpr); ok && sel.Sel.Name == "FindProcess" {
+				finds = true
+			}
+		}
+		return true
+	})
+	return negated && finds
+}
+
 func genExecTask(repo string) (string, error) {
 	ctl, err := parseFile(repo + "/executor/executable/controllabletask.go")
 	if err != nil {
@@ -672,6 +741,14 @@ func genExecTask(repo string) (string, error) {
 	}
 	prep := findFunc(tsk, "", "prepareTaskCmd")
 	if prep == nil {
+		return "", fmt.Errorf("an anchored function of C17 is gone")
+	}
+	pidu, err := parseFile(repo + "/executor/executable/pid_util.go")
+	if err != nil {
+		return "", err
+	}
+	pidEx := findFunc(pidu, "", "pidExists")
+	if pidEx == nil {
 		return "", fmt.Errorf("an anchored function of C17 is gone")
 	}
 	kill := findFunc(ctl, "ControllableTask", "Kill")
@@ -779,6 +856,11 @@ func genExecTask(repo string) (string, error) {
 	fmt.Fprintf(&b, "/-- does basicTaskBase.Kill signal anything (a call named Kill or Signal) (go/ast). -/\ndef basicKillSignals : Bool := %s\n\n", lb(callsAny(bkill, "Kill", "Signal")))
 	fmt.Fprintf(&b, "/-- does ControllableTask.Launch compare taskCmd.Process with nil before using its Pid (go/ast). -/\ndef launchChecksProcessNil : Bool := %s\n\n", lb(comparesWithNil(launch, "Process")))
 	fmt.Fprintf(&b, "/-- does prepareTaskCmd give every child a process group of its own: every SysProcAttr literal has `Setpgid: true`, the constant, whatever the command's shape (go/ast). -/\ndef setpgidUnconditional : Bool := %s\n\n", lb(setpgidUnconditional(prep)))
+	b.WriteString("/-! the launch-failure path of a controllable task: escalation over the process group (go/ast) -/\n\n")
+	reaps := reapsBeforeEscalation(launch)
+	fmt.Fprintf(&b, "/-- ControllableTask.Launch calls doTermIntKill (on its launch-failure paths). -/\ndef launchEscalates : Bool := %s\n\n", lb(reaps >= 0))
+	fmt.Fprintf(&b, "/-- some `.Wait()` of ControllableTask.Launch (directly or in a goroutine it starts) comes before a doTermIntKill call: the command is reaped before / while its group is escalated. -/\ndef launchReapsBeforeEscalation : Bool := %s\n\n", lb(reaps == 1))
+	fmt.Fprintf(&b, "/-- pidExists turns a negative pid (a process group) into the pid of the group leader and asks for that process only. -/\ndef pidExistsLooksAtLeader : Bool := %s\n\n", lb(pidExistsLooksAtLeader(pidEx)))
 	b.WriteString("/-! how requests are served: the facts behind the model of overlapping requests (go/ast) -/\n\n")
 	fmt.Fprintf(&b, "/-- handleMessageEvent makes every Transition and Trigger call from a goroutine it starts. -/\ndef messagesServedInGoroutine : Bool := %s\n\n", lb(servedInGoroutine(hmsg, "Transition", "Trigger")))
 	fmt.Fprintf(&b, "/-- handleKillEvent calls Kill from a goroutine it starts. -/\ndef killServedInGoroutine : Bool := %s\n\n", lb(servedInGoroutine(hkill, "Kill")))
